@@ -69,6 +69,18 @@ def build(P):
                    "n <- 3\nFOR i <- 1 TO n\nn <- n + 1\nOUTPUT i\nNEXT", "FOR i <- 1 TO 5\ni <- i + 1\nOUTPUT i\nNEXT i\nOUTPUT i",
                    "FOR i <- 1 TO 3 STEP 0\nOUTPUT i\nIF i = 1 THEN\nBREAK\nENDIF\nNEXT", "FOR i <- 1.5 TO 3\nNEXT", "FOR i <- 1 TO \"a\"\nNEXT", "FOR i <- 1 TO 2 STEP TRUE\nNEXT",
                    "DECLARE s : STRING\nFOR s <- 1 TO 2\nNEXT", "FOR i <- 9223372036854775806 TO 9223372036854775807\nOUTPUT i\nIF i < 0 THEN\nBREAK\nENDIF\nNEXT"]
+        # BREAK / CONTINUE reach the innermost LOOP through any selection statement around them (IF, ELSE, CASE clause, OTHERWISE, nested)
+        wrappers = {"if": "IF c = 3 THEN\n%s\nENDIF", "else": "IF c <> 3 THEN\nOUTPUT \"n\", c\nELSE\n%s\nENDIF", "case": "CASE OF c\n1 : OUTPUT \"one\"\n3 : %s\nOTHERWISE : OUTPUT \"o\", c\nENDCASE",
+                    "otherwise": "CASE OF c\n1 : OUTPUT \"one\"\n2 : OUTPUT \"two\"\nOTHERWISE : %s\nENDCASE", "case-if": "CASE OF c\n3 : IF TRUE THEN\n%s\nENDIF\nOTHERWISE : OUTPUT \"o\", c\nENDCASE",
+                    "if-case": "IF c >= 3 THEN\nCASE OF c\n3 TO 4 : %s\nENDCASE\nENDIF", "case-range": "CASE OF c\n2 TO 3 : %s\nENDCASE"}
+        loops = {"for": "FOR c <- 1 TO 6\n%s\nOUTPUT \"after \", c\nNEXT c\nOUTPUT \"end \", c",
+                 "while": "c <- 0\nWHILE c < 6 DO\nc <- c + 1\n%s\nOUTPUT \"after \", c\nENDWHILE\nOUTPUT \"end \", c",
+                 "repeat": "c <- 0\nREPEAT\nc <- c + 1\n%s\nOUTPUT \"after \", c\nUNTIL c >= 6\nOUTPUT \"end \", c",
+                 "nested": "FOR o <- 1 TO 2\nc <- 0\nWHILE c < 5 DO\nc <- c + 1\n%s\nOUTPUT \"after \", o, c\nENDWHILE\nOUTPUT \"outer \", o\nNEXT o\nOUTPUT \"end\""}
+        for lk, lt in loops.items():
+            for wk, wt in wrappers.items():
+                for sig in ("BREAK", "CONTINUE"):
+                    shapes.append(lt % (wt % sig))
         progs = [Case(id="C03-shape-%d" % i, prog=(s + "\n").encode()) for i, s in enumerate(shapes)]
         yield ("shapes", progs)
         # CASE matrix: every selector value (INTEGER, REAL incl. non-integral and negative, CHAR, STRING, BOOLEAN, DATE, enum) against label lists that mix
@@ -172,6 +184,14 @@ def build(P):
             "DECLARE a : ARRAY[1:3] OF INTEGER\nFUNCTION Nx() RETURNS INTEGER\nOUTPUT \"nx\"\nRETURN 2\nENDFUNCTION\nPROCEDURE P(BYREF e : INTEGER)\ne <- 9\nENDPROCEDURE\nCALL P(a[Nx()])\nOUTPUT a[2]",
         ]
         yield ("shapes", [Case(id="C04-shape-%d" % i, prog=(s + "\n").encode()) for i, s in enumerate(shapes)])
+        scope_shapes = []
+        for kind, head, tail, call in [("proc", "PROCEDURE Run()", "ENDPROCEDURE", "CALL Run()"), ("fn", "FUNCTION Run() RETURNS INTEGER", "RETURN 0\nENDFUNCTION", "OUTPUT Run()")]:
+            for decl in ["g <- 100", "DECLARE g : INTEGER\ng <- 100", ""]:
+                for inner in ["", "DECLARE g : INTEGER"]:
+                    scope_shapes.append("\n".join([decl, "PROCEDURE Show()\nOUTPUT \"show \", g\nENDPROCEDURE" if decl else "PROCEDURE Show()\nOUTPUT \"show\"\nENDPROCEDURE", head, inner, "FOR g <- 1 TO 3", "CALL Show()", "OUTPUT \"loop \", g", "NEXT g", "OUTPUT \"after loop \", g", tail, call, "OUTPUT \"main \", g" if decl else "OUTPUT \"main\""]))
+            # WHILE / REPEAT / assignment / INPUT on a global from inside a routine
+            scope_shapes.append("\n".join(["g <- 0", head, "WHILE g < 3 DO", "g <- g + 1", "ENDWHILE", "REPEAT", "g <- g + 10", "UNTIL g > 20", "INPUT g", tail, call, "OUTPUT \"main \", g"]))
+        yield ("scope-shapes", [Case(id="C04-scope-%d" % i, prog=(sp + "\n").encode(), stdin=b"77\n", meta=dict(units=["scope/%d" % i])) for i, sp in enumerate(scope_shapes)])
         yield ("call-matrix", [Case(id="C04-call-%d" % i, prog=(s + "\n").encode(), meta=dict(units=["call/%d" % i])) for i, s in enumerate(call_matrix())])
         n = sizes(tier, 1200, 30000)
         cs = []
@@ -181,7 +201,7 @@ def build(P):
         for ch in chunks(cs, 400):
             yield ("generator", ch)
 
-    C04 = dict(cases=c04_cases, builds_quick=["normal", "san"], model_is_oracle=("out", "exit", "files", "termination"), nontrivial=lambda c, r, m: b"proc " in r.out or b"fn " in r.out or c.id.startswith("C04-shape") or c.id.startswith("C04-call"),
+    C04 = dict(cases=c04_cases, builds_quick=["normal", "san"], model_is_oracle=("out", "exit", "files", "termination"), nontrivial=lambda c, r, m: b"proc " in r.out or b"fn " in r.out or c.id.startswith("C04-shape") or c.id.startswith("C04-call") or c.id.startswith("C04-scope"),
                rule="every (PROCEDURE/FUNCTION, BYREF/BYVAL/default, parameter type, argument type, argument form: variable, literal, parenthesised, computed, element, field, constant) call; hand-built shapes for sticky BYREF/BYVAL and shared-type parameter lists, BYREF chains / elements / fields, recursion to depth 50, shadowing, "
                     "call errors; typed generator with up to 4 procedures/functions whose bodies and call sites are random; caller state dumped at the end; "
                     "non-trivial = distinct program in which a procedure or function body ran (trace tag)",
@@ -238,6 +258,13 @@ def build(P):
             "DECLARE line : STRING\nOPENFILE \"pf.txt\" FOR WRITE\nWRITEFILE \"pf.txt\", 12\nCLOSEFILE \"pf.txt\"\nOPENFILE \"pf.txt\" FOR READ\nEOF(\"pf.txt\")\nREADFILE \"pf.txt\", line\nEOF(\"pf.txt\")\nCLOSEFILE \"pf.txt\"\nOUTPUT line",
             "PROCEDURE P(v : INTEGER)\nv + 1\nOUTPUT v\nENDPROCEDURE\nFUNCTION F(v : INTEGER) RETURNS INTEGER\nv * 2\nRETURN v * 2\nENDFUNCTION\nCALL P(3)\nF(4)\nOUTPUT F(5)",
             "DECLARE k : INTEGER\nk <- 0\nWHILE k < 3 DO\nk <- k + 1\nk\nENDWHILE\nREPEAT\nk <- k - 1\nk * k\nUNTIL k = 0\nCASE OF k\n0 : k + 1\nOTHERWISE : k + 2\nENDCASE\nIF k = 0 THEN\nk\nELSE\nk + 1\nENDIF\nOUTPUT \"done \", k",
+        ]
+        forms += [
+            "OPENFILE \"pg.txt\" FOR WRITE\nWRITEFILE \"pg.txt\", \"l1\"\nCLOSEFILE \"pg.txt\"\nOPENFILE \"pg.txt\" FOR READ\nREADFILE \"pg.txt\", undeclaredLine\nCLOSEFILE \"pg.txt\"\nOUTPUT undeclaredLine",
+            "FOR undeclaredIt <- 1 TO 3\nOUTPUT undeclaredIt\nNEXT undeclaredIt\nOUTPUT undeclaredIt",
+            "CONSTANT K = 4\nCONSTANT S = \"s\"\nDECLARE a : ARRAY[1:K] OF INTEGER\na[K] <- K\nOUTPUT a[K], S",
+            "TYPE T = (P, Q)\nDECLARE t : T\nDECLARE r : REAL\nt <- Q\nr <- 1\nOUTPUT t, \" \", r\nDECLARE c : CHAR\nc <- \"x\"\nOUTPUT c",
+            "DECLARE d : DATE\nd <- 1/2/2003\nOUTPUT DAY(d), MONTH(d), YEAR(d)\nDECLARE s : STRING\ns <- 'c'\nOUTPUT s & \"!\"",
         ]
         fcs = []
         for fi, prog_text in enumerate(forms):
